@@ -20,6 +20,9 @@ def main():
     except Exception:
         pass
     ctx = runner.Ctx(job['prop'], job['tier'], job['seed'], job['spec'])
+    # this interpreter runs with the pinned hash seed it was started with (reproducible workloads); the processes a check starts
+    # (main.py, gdb) get another one, different per shard, as a user's processes do: nothing displayed may depend on it (D17)
+    os.environ['PYTHONHASHSEED'] = str(1 + int(runner.h64([job['prop'], job['seed'], job['spec'].get('shard', 0), 'hashseed']), 16) % (2 ** 31))
     ctx.hb_fd = os.open(out_path + '.hb', os.O_RDWR | os.O_CREAT | os.O_TRUNC, 0o600)
     cov = cover.Cover(env.REPO)
     cov.start()
